@@ -962,6 +962,19 @@ pub fn exec(ctx: &mut Ctx, op: &Value) -> (Value, Value) {
                 }),
             }
         }
+        "sketch" => {
+            // the sketch track's candidate list for a query (ids, scores in 1/1000, Hamming distance, matching top terms):
+            // an observation two executions of one history must agree on (C23)
+            let q = query_of(op);
+            match ctx.mem.as_mut() {
+                None => json!({"ok": false, "err": "NoHandle"}),
+                Some(m) => match catch_unwind(AssertUnwindSafe(|| m.find_sketch_candidates(&q, Some(memvid_core::SketchSearchOptions { hamming_threshold: 64, max_candidates: 2000, min_score: 0.0 })))) {
+                    Ok(c) => json!({"ok": true, "val": {"frames": c.iter().map(|x| x.frame_id).collect::<Vec<_>>(),
+                        "cands": c.iter().map(|x| json!([x.frame_id, (x.score * 1000.0).round() as i64, x.hamming_distance, x.matching_top_terms])).collect::<Vec<_>>()}}),
+                    Err(p) => res_panic(p),
+                },
+            }
+        }
         "vecset" => {
             // C14: which frames does vector search find at distance 0 for every embedding used so far?
             let mut embs: Vec<(i64, Vec<f32>)> = ctx.embs.iter().map(|(k, v)| (*v, k.iter().map(|b| f32::from_bits(*b)).collect())).collect();
